@@ -67,6 +67,8 @@ def run_property(pid: str, tier: str, seed: int, jobs: int | None = None, only=N
     that ignores its timeout (seen with nlsat on huge coefficients) ends as a harness error, never as a hang."""
     t0 = time.time()
     sys.path.insert(0, ROOT)
+    import shutil
+    shutil.rmtree(os.path.join(ROOT, "replays", pid), ignore_errors=True)  # replays of an earlier run are stale
     mod = importlib.import_module(f"harness.{pid.lower()}")
     names = list(mod.cases(tier, seed))
     if only:
